@@ -13,3 +13,4 @@ from . import pragmas  # noqa: F401
 from . import api  # noqa: F401
 from . import nesting  # noqa: F401
 from . import fixes  # noqa: F401
+from . import rules  # noqa: F401
